@@ -1446,6 +1446,9 @@ class Simulation:
         # Ensure misfit has been computed (and therefore the weights).
         _ = self.misfit
 
+        # Keep the actual residual; it is temporarily replaced by the vector.
+        residual = self.data.residual.data.copy()
+
         # Replace residual by provided vector
         # (division by weight is undone in gradient).
         with np.errstate(invalid='ignore'):  # (For division by cplx-NaN.)
@@ -1457,8 +1460,15 @@ class Simulation:
             if hasattr(self, name):
                 delattr(self, name)
 
-        # Return gradient from weighted residual `vector`.
-        return self.gradient
+        # Gradient from weighted residual `vector`.
+        jtvec = self.gradient
+
+        # Restore the actual residual and reset the gradient, so that
+        # `gradient` does not return the result for `vector`.
+        self.data.residual[...] = residual
+        self._gradient = None
+
+        return jtvec
 
     # UTILS
     @property
